@@ -478,12 +478,11 @@ def replay(ctx, obj):
 def selftest(ctx):
     global _TMP
     _TMP = ctx.scratch
-    import dask.bytes.core as BYC
-    import dask.dataframe.io.csv as CSV
-
     from ..frames import dd
     from ..mutate import source_mutant
-    dd()
+    dd()                                   # dask.dataframe is only importable through the shim
+    import dask.bytes.core as BYC
+    import dask.dataframe.io.csv as CSV
     ok = True
     rng = random.Random(3)
     frames = random_frames(rng, 14, True)
